@@ -83,24 +83,50 @@ def exitRow (c : CRow) : Bool :=
 /-- a `go_to` row: its edges enter the named rows -/
 def gotoRow (c : CRow) : Bool := decide (c.row.type = "go_to".toList) && c.row.nodeUuid.isEmpty
 
+def fixedTypes : List Str := ["start_new_flow", "call_webhook", "transfer_airtime"].map String.toList
+
+/-- a row with fixed outcomes (`start_new_flow`: Complete / Expired; `call_webhook`,
+`transfer_airtime`: Success / Failure) that stands for itself; it performs its own action -/
+def fixedRow (c : CRow) : Bool :=
+  fixedTypes.contains c.row.type && c.row.nodeUuid.isEmpty && c.row.nodeName.isEmpty &&
+  decide (c.refAct = some (c.row.ownAction.getD []))
+
+/-- a `split_random` row that stands for itself; it performs no action -/
+def randomRow (c : CRow) : Bool :=
+  decide (c.row.type = "split_random".toList) && c.row.nodeUuid.isEmpty && c.row.nodeName.isEmpty &&
+  c.refAct.isNone
+
 /-- a row of the fragment that produces a node -/
-def nodeRowOk (c : CRow) : Bool := plainActionRow c || switchRow c
+def nodeRowOk (c : CRow) : Bool := plainActionRow c || switchRow c || fixedRow c
 
 def rowOk (c : CRow) : Bool := nodeRowOk c || exitRow c || gotoRow c
 
 def isNR (c : RefFlow.Cond) : Bool := RefFlow.lower c.value = "no response".toList
 
+/-- the name of the bucket an edge leaving a `split_random` row stands for (empty: a new, unnamed
+bucket) -/
+def bucketName (c : RefFlow.Cond) : Str := if c.name.isEmpty then c.value else c.name
+
+/-- bucket names the two readings generate themselves (`Bucket N` / `#n`) are not used explicitly -/
+def bucketNameOk (nm : Str) : Bool :=
+  nm.isEmpty || !(decide (nm.take 7 = "Bucket ".toList) || decide (nm.head? = some '#'))
+
 /-- the edges leaving a row are read with one meaning only: an action row is left unconditionally;
 a condition on an edge leaving a `wait_for_response` row names no variable (the operand stays the
 reply) and no category; a condition leaving a split row is not the reserved "no response" and names
-no category -/
+no category; a bucket of a `split_random` row is not given one of the generated bucket names; the
+edges leaving a fixed-outcome row are unrestricted (an outcome word that does not exist is an error
+of the compiler) -/
 def edgeOk (rows : List CRow) (e : RefFlow.OutEdge) : Bool :=
-  e.cond.blank ||
   match (rows[e.src]?).map (fun c => kindOf c.row.type) with
-  | some .wait => e.cond.var.isEmpty && e.cond.name.isEmpty
-  | some .splitValue => !isNR e.cond && e.cond.name.isEmpty
-  | some .splitGroup => !isNR e.cond && e.cond.name.isEmpty
-  | _ => false
+  | some .wait => e.cond.blank || (e.cond.var.isEmpty && e.cond.name.isEmpty)
+  | some .splitValue => e.cond.blank || (!isNR e.cond && e.cond.name.isEmpty)
+  | some .splitGroup => e.cond.blank || (!isNR e.cond && e.cond.name.isEmpty)
+  | some .splitRandom => bucketNameOk (bucketName e.cond)
+  | some .enterFlow => true
+  | some .webhook => true
+  | some .airtime => true
+  | _ => e.cond.blank
 
 /-- the test a conditional edge leaving a row of kind `k` stands for -/
 def refTest (k : RefFlow.Kind) (c : RefFlow.Cond) : Str × List Str :=
@@ -115,7 +141,8 @@ def testsOf (k : RefFlow.Kind) (es : List RefFlow.OutEdge) : List RefFlow.OutEdg
 def distinctTests (rows : List CRow) (out : List RefFlow.OutEdge) : Bool :=
   (List.range rows.length).all fun j =>
     match rows[j]? with
-    | some c => decide (((testsOf (kindOf c.row.type) (out.filter (·.src = j))).map
+    | some c => !switchTypes.contains c.row.type ||
+      decide (((testsOf (kindOf c.row.type) (out.filter (·.src = j))).map
         (fun e => refTest (kindOf c.row.type) e.cond)).Nodup)
     | none => true
 
